@@ -1,5 +1,6 @@
 import ModbusVerif.Driver.Wire
 import ModbusVerif.Spec.Request
+import ModbusVerif.Spec.Layout
 /-
   mbmodel: line protocol. One operation per input line, one canonical output line.
   Unknown or malformed lines print `bad-op` (never a default).
@@ -90,6 +91,60 @@ def step (line : String) : String :=
     | some sc, some en, some s =>
       if sc.isEmpty then "bad-op" else showEvents (Server.run (scripted sc) 0 s en).2
     | _, _, _ => "bad-op"
+  -- codecs (C17): model output, then the reference layout (property oracle) where one exists
+  | ["enc16", e, v] =>
+    match e.toNat?, u16? v with
+    | some e, some v => hex (Enc.uint16ToBytes (endianOfNat e) v) ++ " spec=" ++ hex (Spec.layout16 (endianOfNat e) v)
+    | _, _ => "bad-op"
+  | ["enc32", e, w, v] =>
+    match e.toNat?, w.toNat?, v.toNat? with
+    | some e, some w, some v =>
+      hex (Enc.uint32ToBytes (endianOfNat e) (wordOfNat w) (BitVec.ofNat 32 v)) ++ " spec=" ++
+        hex (Spec.layout32 (endianOfNat e) (wordOfNat w) (BitVec.ofNat 32 v))
+    | _, _, _ => "bad-op"
+  | ["enc64", e, w, v] =>
+    match e.toNat?, w.toNat?, v.toNat? with
+    | some e, some w, some v =>
+      hex (Enc.uint64ToBytes (endianOfNat e) (wordOfNat w) (BitVec.ofNat 64 v)) ++ " spec=" ++
+        hex (Spec.layout64 (endianOfNat e) (wordOfNat w) (BitVec.ofNat 64 v))
+    | _, _, _ => "bad-op"
+  | ["dec16s", e, data] =>
+    match e.toNat?, unhex data with
+    | some e, some d => match Enc.bytesToUint16s (endianOfNat e) d with
+      | some l => if l.isEmpty then "-" else String.join (l.map hex16)
+      | none => "panic"
+    | _, _ => "bad-op"
+  | ["dec32s", e, w, data] =>
+    match e.toNat?, w.toNat?, unhex data with
+    | some e, some w, some d => match Enc.bytesToUint32s (endianOfNat e) (wordOfNat w) d with
+      | some l => if l.isEmpty then "-" else String.join (l.map hex32)
+      | none => "panic"
+    | _, _, _ => "bad-op"
+  | ["dec64s", e, w, data] =>
+    match e.toNat?, w.toNat?, unhex data with
+    | some e, some w, some d => match Enc.bytesToUint64s (endianOfNat e) (wordOfNat w) d with
+      | some l => if l.isEmpty then "-" else String.join (l.map hex64)
+      | none => "panic"
+    | _, _, _ => "bad-op"
+  | ["encbools", bs] =>
+    match unbits bs with
+    | some l => hex (Enc.encodeBools l) ++ " spec=" ++ hex (Spec.packBools l)
+    | none => "bad-op"
+  | ["decbools", q, data] =>
+    match q.toNat?, unhex data with
+    | some q, some d => match Enc.decodeBools q d with
+      | some l => bits l
+      | none => "panic"
+    | _, _ => "bad-op"
+  | ["crcdigest", lo, hi] =>
+    -- digest over all (state, byte) pairs with lo <= state < hi of the one-byte CRC transition
+    match lo.toNat?, hi.toNat? with
+    | some lo, some hi =>
+      let d := (List.range (hi - lo)).foldl (fun acc i =>
+        (List.range 256).foldl (fun acc b =>
+          (acc * 1000003 + (Crc.step (BitVec.ofNat 16 (lo + i)) (BitVec.ofNat 8 b)).toNat) % 2305843009213693951) acc) 7
+      toString d
+    | _, _ => "bad-op"
   | ["crc", data] =>
     match unhex data with
     | some d => hex (Crc.crc16 d) ++ " ref=" ++ hex (le16 (Crc.refCrc d))
